@@ -518,3 +518,9 @@ Fixpoint sp_accepts (a : sp) (h : list bop) (obs : list bobs) : bool :=
   | o :: h', ob :: obs' => match sp_step a o ob with Some a' => sp_accepts a' h' obs' | None => false end
   | _, _ => false
   end.
+
+(* the abstraction of a model state: what the reference specification sees of it *)
+Definition abs (s : bb) : sp :=
+  {| s_mr := max_readers s; s_ty := map e_ty (entries s); s_val := map cell_load (entries s);
+     s_gen := map e_wc (entries s); s_ws := map w_obj (writers s); s_hs := whs s;
+     s_rs := readers s; s_xs := rhs s |}.
